@@ -39,6 +39,9 @@ def sanitize(line, big=False, drop=()):
             t[2] = {"udiv": "sdiv", "urem": "srem"}.get(t[2], t[2])
             if t[2] in drop:
                 continue
+        if t[0] == "expand":
+            # precondition of expand in the graph domains: the new variable is unbound
+            out.append("forget %s 1 %s" % (t[1], t[3]))
         if not big:
             t = [str(SMALLMAP[int(x)]) if re.match(r"^-?\d{8,}$", x) and int(x) in SMALLMAP else x for x in t]
         out.append(" ".join(t))
